@@ -33,7 +33,7 @@ static uint64_t clock_ticks = 0;
 static uint64_t clock_base = 1700000000ULL;
 static long fake_pid = 0;
 static int clock_on = 0;
-static unsigned long n_getrandom = 0, n_clock = 0, n_pid = 0, n_getenv = 0;
+static unsigned long n_getrandom = 0, n_clock = 0, n_pid = 0, n_getenv = 0, n_threads = 0;
 static int marked = 0;
 #define MAX_NAMES 64
 static char names[MAX_NAMES][64];
@@ -42,7 +42,7 @@ static int n_names = 0;
 static void report(void) {
     const char *r = getenv("VERIF_SHIM_REPORT");
     if (r && r[0] == '1') {
-        fprintf(stderr, "VERIF_SHIM getrandom=%lu clock=%lu getpid=%lu getenv=%lu names=", n_getrandom, n_clock, n_pid, n_getenv);
+        fprintf(stderr, "VERIF_SHIM getrandom=%lu clock=%lu getpid=%lu getenv=%lu threads=%lu names=", n_getrandom, n_clock, n_pid, n_getenv, n_threads);
         for (int i = 0; i < n_names; i++) fprintf(stderr, "%s%s", i ? "," : "", names[i]);
         fprintf(stderr, "\n");
     }
@@ -206,3 +206,15 @@ static long fake_uid(void) {
 }
 uid_t getuid(void) { long f = fake_uid(); return f >= 0 ? (uid_t)f : (uid_t)syscall(SYS_getuid); }
 uid_t geteuid(void) { long f = fake_uid(); return f >= 0 ? (uid_t)f : (uid_t)syscall(SYS_geteuid); }
+
+/* threads created after the start mark: the session's own workers are known to the simulator; any
+ * surplus was created by the code under simulation */
+static int (*real_pthread_create)(pthread_t *, const pthread_attr_t *, void *(*)(void *), void *) = 0;
+int pthread_create(pthread_t *t, const pthread_attr_t *a, void *(*f)(void *), void *arg) {
+    if (!real_pthread_create)
+        real_pthread_create = (int (*)(pthread_t *, const pthread_attr_t *, void *(*)(void *), void *))dlsym(RTLD_NEXT, "pthread_create");
+    pthread_mutex_lock(&mu);
+    if (marked) n_threads++;
+    pthread_mutex_unlock(&mu);
+    return real_pthread_create(t, a, f, arg);
+}
